@@ -4,7 +4,9 @@
 cd /verif
 [ -z "$(git -C /repo status --porcelain)" ] || { echo "/repo has uncommitted changes"; exit 2; }
 rc=0
-for p in $(python3 -c "import json;print(' '.join(c['property_id'] for c in json.load(open('MANIFEST.json'))['checks']))"); do
+# optional arguments: the property ids to re-run (default: every claimed check); validation always covers all
+PROPS="$*"; [ -n "$PROPS" ] || PROPS=$(python3 -c "import json;print(' '.join(c['property_id'] for c in json.load(open('MANIFEST.json'))['checks']))")
+for p in $PROPS; do
   out=$(bin/check $p --tier quick 2>&1); r=$?
   echo "$p rc=$r $(echo "$out" | tail -1 | cut -c1-150)"
   [ $r -ne 0 ] && rc=1
